@@ -438,6 +438,8 @@ def r10_secret_measure(ctx, configs, rule_id='C10.R10'):
                 elif names & set(badsrc):
                     verdict = ('violated', 'the secret is measured by %s (size %s): that is the length of the group order, but the secret is %s - on curves where the two differ the derived key is cut or padded and does not match the peer\'s' % ('/'.join(sorted(names & set(badsrc))), sz, why), line, path)
                     break
+                elif prim in names:
+                    continue          # the size is the length the primitive returned: that is C10.R3's violation, not a question of the measure
                 elif not (names & set(good)):
                     verdict = verdict or ('undecided', 'the size of the secret (%s) comes from none of the known measures %s' % (sz, '/'.join(good)), line, path)
             if verdict is None:
@@ -514,6 +516,8 @@ def run(ctx):
     from rules import c20
     c20.r10_round_up(ctx, configs, rule_id='C10.R9')
     r10_secret_measure(ctx, configs)
+    from rules import c12
+    c12.r1cd_typestate(ctx, ossl, rule_ids=('C10.R11a', 'C10.R11b'))
 
 
 MUTANTS = [
